@@ -262,5 +262,6 @@ pub fn property() -> Property {
         assumptions: vec!["RUN transcripts are compared under a 2000-turn budget"],
         families,
         prelude: None,
+        epilogue: None,
     }
 }
